@@ -624,7 +624,10 @@ pub fn instr_toks(i: &Instr) -> Vec<Tok> {
                 PrintKind::MemLen(a, n) => {
                     t.push(kw("mem"));
                     t.push(num(*a as i32, 0));
-                    t.push(punct(":"));
+                    // a name directly followed by ':' would be read as a label definition
+                    let mut p = punct(":");
+                    p.space_before = true;
+                    t.push(p);
                     t.push(num(*n as i32, 0));
                 }
                 PrintKind::MemDs(n) => {
